@@ -8,7 +8,7 @@
    decided by real x509 verification and real TLS handshakes in the harness
    (partial, see notes/C06.md). *)
 From Coq Require Import List ZArith NArith Bool Ascii Arith String.
-From Martian.C06 Require Import Model Proofs_Strings Proofs.
+From Martian.C06 Require Import Model Proofs_Strings Proofs Proofs_Audit.
 Import ListNotations.
 
 Definition ip_law (parse_ip : str -> option str) : Prop :=
@@ -302,3 +302,215 @@ Proof.
   split; [eexists; vm_compute; repeat split; reflexivity|].
   vm_compute. repeat split; try reflexivity. discriminate.
 Qed.
+
+(* ================= theorem-audit round ================= *)
+
+(* THE property for one handshake, end to end: whatever spelling of host v
+   the client used (SNI through TLS() or through TLSForHost with any CONNECT
+   authority; no SNI and the bare host, host:port or [v6]:port as authority),
+   in every interleaving with any number of other requesters and at every
+   clock, the certificate it is handed was minted for v, verifies for v at
+   the time it is decided, carries the configured organization and key and
+   is signed by the configured CA.  v: not empty, not ".", no brackets, no
+   colon (DNS name in any letter case, IPv4) or >= 2 colons (IPv6 literal). *)
+Theorem C06_client_end_to_end : forall parse_ip, ip_law parse_ip ->
+  forall cfg k s i v p a sni r t c,
+  v <> [] -> empty_or_dot v = false -> no_brackets v -> plain p ->
+  (contains ch_colon v = false \/ two_colons v) ->
+  spelling v p a sni ->
+  (second <= cfg_validity cfg)%Z ->
+  reachable parse_ip cfg k s -> returned s i a sni r t -> (r = Hit c \/ r = Issued c) ->
+  c_san c = san_for parse_ip v /\ c_org c = cfg_org cfg /\ c_key c = cfg_key cfg
+  /\ c_signer c = cfg_ca cfg /\ x509_verify parse_ip cfg c v t = true.
+Proof. exact client_end_to_end. Qed.
+Print Assumptions C06_client_end_to_end.
+
+(* ... and such a client is never refused (the handshake can complete) *)
+Theorem C06_client_never_refused : forall parse_ip cfg k s i v p a sni t,
+  v <> [] -> no_brackets v -> plain p ->
+  (contains ch_colon v = false \/ two_colons v) ->
+  spelling v p a sni -> issuable parse_ip v = true ->
+  reachable parse_ip cfg k s -> ~ returned s i a sni Refused t.
+Proof. exact client_never_refused. Qed.
+Print Assumptions C06_client_never_refused.
+
+(* What a step does NOT change: other requesters; every cache entry except,
+   for a Store, the storing requester's own name; the certificate history
+   only grows; the clock never goes back. *)
+Theorem C06_step_frame : forall parse_ip cfg s l s',
+  step parse_ip cfg s l = Some s' ->
+  (forall j, j <> label_thread l -> nth_error (l_threads s') j = nth_error (l_threads s) j)
+  /\ (forall k, cache_get k (l_cache s') <> cache_get k (l_cache s) ->
+        exists i th c t, l = LStore i /\ nth_error (l_threads s) i = Some th
+                         /\ th_pc th = Made k c t /\ cache_get k (l_cache s') = Some c)
+  /\ (l_issued s' = l_issued s \/ exists c, l_issued s' = l_issued s ++ [c])
+  /\ (l_now s <= l_now s')%Z.
+Proof. exact step_frame. Qed.
+Print Assumptions C06_step_frame.
+
+Theorem C06_seq_frame : forall parse_ip cfg st a sni t t1 t2 r st',
+  get_cert parse_ip cfg st a sni t t1 t2 = (r, st') ->
+  (forall k, req_name a sni <> Some k -> cache_get k (st_cache st') = cache_get k (st_cache st))
+  /\ (match r with Issued _ => True | _ => st' = st end).
+Proof. exact seq_frame. Qed.
+Print Assumptions C06_seq_frame.
+
+(* Every boolean the driver evaluates to name a failing clause is its Prop,
+   and their conjunction, in the driver's order, is answer_ok. *)
+Theorem C06_clause_oracles : forall parse_ip cfg,
+  (forall c h, cert_for_name parse_ip c h = true <-> c_san c = san_for parse_ip h)
+  /\ (forall c, cert_org_ok cfg c = true <-> c_org c = cfg_org cfg)
+  /\ (forall c, cert_key_ok cfg c = true <-> c_key c = cfg_key cfg)
+  /\ (forall c, chains cfg c = true <-> c_signer c = cfg_ca cfg)
+  /\ (forall c t, in_window c t = true <-> (c_nb c <= t <= c_na c)%Z)
+  /\ (forall c name t, x509_verify parse_ip cfg c name t = true <->
+        c_signer c = cfg_ca cfg /\ (c_nb c <= t <= c_na c)%Z
+        /\ (name = [] \/ host_matches parse_ip (c_san c) name = true))
+  /\ (forall a sni vname r tv h c,
+        req_name a sni = Some h -> (r = Hit c \/ r = Issued c) ->
+        answer_ok parse_ip cfg a sni vname r tv =
+        (cert_for_name parse_ip c h && cert_org_ok cfg c && cert_key_ok cfg c
+         && (chains cfg c && in_window c tv
+             && (if is_empty vname then true else host_matches parse_ip (c_san c) vname)))%bool).
+Proof.
+  intros parse_ip cfg.
+  exact (conj (cert_for_name_iff parse_ip) (conj (cert_org_ok_iff cfg) (conj (cert_key_ok_iff cfg)
+        (conj (chains_iff cfg) (conj in_window_iff (conj (x509_verify_iff parse_ip cfg)
+        (answer_ok_components parse_ip cfg))))))).
+Qed.
+Print Assumptions C06_clause_oracles.
+
+(* A PROPFAIL is a violation: each clause the driver can name from the model
+   side, failing on an observation, falsifies the per-answer statement.  (The
+   clauses decided only by real Go code — the V bit of x509.Verify, the
+   other-name bits, the handshake bit, PANIC — are observations, not model
+   functions; the driver additionally requires the model's x509_verify to
+   agree with the real bits, otherwise it reports DISAGREE.) *)
+Theorem C06_propfail_is_violation : forall parse_ip cfg a sni vname r tv,
+  (req_name a sni = None -> r <> Refused -> ~ answer_prop parse_ip cfg a sni vname r tv)
+  /\ (forall h, req_name a sni = Some h -> issuable parse_ip h = true -> r = Refused ->
+        ~ answer_prop parse_ip cfg a sni vname r tv)
+  /\ (forall h c, req_name a sni = Some h -> (r = Hit c \/ r = Issued c) ->
+        (cert_for_name parse_ip c h = false \/ cert_org_ok cfg c = false \/ cert_key_ok cfg c = false
+         \/ chains cfg c = false \/ x509_verify parse_ip cfg c vname tv = false) ->
+        ~ answer_prop parse_ip cfg a sni vname r tv).
+Proof. exact clause_failure_is_violation. Qed.
+Print Assumptions C06_propfail_is_violation.
+
+(* Every execution of the model is accepted by the oracle: for every
+   interleaving, every answer a requester holds passes answer_ok for its own
+   name at its decision time.  (Atomicity assumed: each label is one atomic
+   step — the map read under RLock, the map write under Lock; verification
+   and minting touch only requester-local data.) *)
+Theorem C06_lts_answers_accepted : forall parse_ip, ip_law parse_ip ->
+  forall cfg k s i a sni r t,
+  reachable parse_ip cfg k s -> returned s i a sni r t ->
+  (forall h, req_name a sni = Some h -> verifiable_name parse_ip h = true) ->
+  (second <= cfg_validity cfg)%Z ->
+  answer_ok parse_ip cfg a sni (name_or_empty a sni) r t = true.
+Proof. exact lts_answers_accepted. Qed.
+Print Assumptions C06_lts_answers_accepted.
+
+(* After all requesters have returned, whatever the cache holds for a name
+   was handed to a requester of that name: what the driver's after-join check
+   (final_hit_known) demands of the real code holds in every execution. *)
+Theorem C06_quiescent_cache_was_returned : forall parse_ip cfg k s h c,
+  reachable parse_ip cfg k s -> quiescent s ->
+  cache_get h (l_cache s) = Some c -> In (h, c) (l_returned s).
+Proof. exact lts_quiescent_cache_was_returned. Qed.
+Print Assumptions C06_quiescent_cache_was_returned.
+
+(* Port removal removes a port and nothing else. *)
+Theorem C06_split_accepts_only_host_port_shapes : forall hp h p,
+  split_host_port hp = SplitOk h p ->
+  contains ch_colon p = false /\
+  ((hp = h ++ ch_colon :: p /\ contains ch_colon h = false)
+   \/ (hp = ch_lbr :: h ++ ch_rbr :: ch_colon :: p /\ contains ch_rbr h = false)).
+Proof. exact split_ok_shape. Qed.
+Print Assumptions C06_split_accepts_only_host_port_shapes.
+
+Theorem C06_certificate_name_is_host_part_or_unchanged : forall hp,
+  (exists p, (hp = normalize hp ++ ch_colon :: p
+              \/ hp = ch_lbr :: normalize hp ++ ch_rbr :: ch_colon :: p)
+             /\ contains ch_colon p = false)
+  \/ normalize hp = hp.
+Proof. exact normalize_cases. Qed.
+Print Assumptions C06_certificate_name_is_host_part_or_unchanged.
+
+(* Totalisation: the model's only [nth _ _ default] (hostport[end+1]) is in
+   range and default-independent where it is evaluated; the only [last _
+   default] is applied to a non-empty string; index functions return
+   in-range positions; the divisor of trunc_s is not zero. *)
+Theorem C06_totalisation :
+  (forall hp e d1 d2, index_of ch_rbr hp = Some e -> Nat.eqb (S e) (List.length hp) = false ->
+     S e < List.length hp /\ nth (S e) hp d1 = nth (S e) hp d2)
+  /\ (forall (l : str) d1 d2, l <> [] -> last l d1 = last l d2)
+  /\ (forall c s e, index_of c s = Some e -> e < List.length s)
+  /\ (forall c s i, last_index_of c s = Some i -> i < List.length s)
+  /\ (forall c, last_index_of c [] = None)
+  /\ second <> 0%Z.
+Proof.
+  exact (conj split_nth_in_range (conj last_nonempty_indep (conj index_of_lt
+        (conj last_index_of_lt (conj last_index_of_nil second_nonzero))))).
+Qed.
+Print Assumptions C06_totalisation.
+
+(* ---- non-vacuity of the audit theorems ---- *)
+
+(* the hypotheses of C06_client_end_to_end hold for an IPv6 literal and for a mixed-case DNS name *)
+Example C06_example_spellings :
+  spelling (lit "2001:DB8::1") (lit "443") (ApiForHost (lit "[2001:DB8::1]:443")) []
+  /\ spelling (lit "2001:DB8::1") (lit "443") (ApiForHost (lit "2001:DB8::1")) []
+  /\ spelling (lit "Example.COM") (lit "8443") (ApiForHost (lit "front.example:443")) (lit "Example.COM")
+  /\ spelling (lit "Example.COM") (lit "8443") ApiTLS (lit "Example.COM")
+  /\ two_colons (lit "2001:DB8::1") /\ no_brackets (lit "2001:DB8::1") /\ plain (lit "443")
+  /\ empty_or_dot (lit "2001:DB8::1") = false /\ contains ch_colon (lit "Example.COM") = false.
+Proof.
+  split; [exact (sp_port (lit "2001:DB8::1") (lit "443"))|].
+  split; [exact (sp_bare (lit "2001:DB8::1") (lit "443"))|].
+  split; [apply sp_sni_forhost; reflexivity|].
+  split; [apply sp_sni_tls; reflexivity|].
+  split; [exists (lit "2001"), (lit "DB8::1"); split; reflexivity|].
+  repeat split; reflexivity.
+Qed.
+
+(* the hypotheses of C06_expired_reissued: a reachable state where a requester has
+   looked up an entry that has expired by the time it verifies *)
+Example C06_example_expired_lookup_state :
+  exists s th c0,
+  exec demo_ip demo_cfg (lts_init 2)
+    [ LBegin 0 ApiTLS (lit "a.test"); LLookup 0; LVerify 0 5000; LIssue 0 5000 5000; LStore 0; LReturn 0;
+      LBegin 1 (ApiForHost (lit "a.test:443")) []; LLookup 1 ] = Some s
+  /\ nth_error (l_threads s) 1 = Some th /\ th_pc th = Looked (lit "a.test") (Some c0)
+  /\ c_na c0 = 7000%Z /\ l_now s = 5000%Z.
+Proof.
+  eexists. eexists. eexists. split; [vm_compute; reflexivity|].
+  split; [vm_compute; reflexivity|]. vm_compute. repeat split; reflexivity.
+Qed.
+
+(* the hypotheses of C06_quiescent_cache_was_returned, and its conclusion computed *)
+Example C06_example_quiescent :
+  exists s c,
+  exec demo_ip demo_cfg (lts_init 2)
+    [ LBegin 0 ApiTLS (lit "a.test"); LBegin 1 (ApiForHost (lit "a.test:443")) [];
+      LLookup 0; LLookup 1; LVerify 0 5000; LVerify 1 5001;
+      LIssue 0 5002 5002; LIssue 1 5003 5003; LStore 0; LStore 1; LReturn 1; LReturn 0 ] = Some s
+  /\ Forall (fun th => th_pc th = Idle) (l_threads s)
+  /\ cache_get (lit "a.test") (l_cache s) = Some c
+  /\ l_returned s = [(lit "a.test", c); (lit "a.test", mkCert 0 (SanDNS (lit "a.test")) 3000 7000 (lit "Martian Proxy") 1 1)].
+Proof.
+  eexists. eexists. split; [vm_compute; reflexivity|].
+  split; [vm_compute; repeat constructor|]. vm_compute. split; reflexivity.
+Qed.
+
+(* a concrete violation is rejected clause by clause: a certificate with a DNS
+   SAN for an IPv6 literal (the IP-SAN-only-for-IPv4 defect) fails cert_for_name
+   AND x509_verify; the right certificate passes *)
+Example C06_example_clause_failure :
+  let bad := mkCert 0 (SanDNS (lit "::1")) 0 9000 (lit "Martian Proxy") 1 1 in
+  let good := mkCert 0 (SanIP (lit "::1")) 0 9000 (lit "Martian Proxy") 1 1 in
+  cert_for_name demo_ip bad (lit "::1") = false
+  /\ x509_verify demo_ip demo_cfg bad (lit "::1") 5000 = false
+  /\ answer_ok demo_ip demo_cfg (ApiForHost (lit "[::1]:443")) [] (lit "::1") (Issued bad) 5000 = false
+  /\ answer_ok demo_ip demo_cfg (ApiForHost (lit "[::1]:443")) [] (lit "::1") (Issued good) 5000 = true.
+Proof. vm_compute. repeat split; reflexivity. Qed.
